@@ -66,7 +66,7 @@ Fallback ==
 
 \* the CLI's last-resort recovery search: substring scans, no filters
 Recover ==
-    /\ stage \in {"scored", "fellback"} /\ cands = {} /\ sc.entry = "cli" /\ sc.query = "substr"
+    /\ stage \in {"scored", "fellback"} /\ cands = {} /\ sc.entry = "cli" /\ sc.query \in {"substr", "partial"}
     /\ cands' = Docs(sc.corpus)
     /\ path' = "recovery"
     /\ stage' = "recovered"
